@@ -673,6 +673,32 @@ def run(tier: str, seed: int) -> dict:
         complete = complete and not stopped
         bounds.append(f"edits: {n_edits} single edits ({len(labels)} kinds) of {len(bases)} base directories (rich boundary-size tree, {'every 3rd' if quick else 'every'} family member, {n_rand_models} seeded random trees){' - budget stop' if stopped else ''}")
 
+        # (2b) in-place content edit of the SAME directory with size and timestamps kept identical (same process, same paths):
+        #      "equal trees exactly when same contents ... independent of timestamps"
+        import hashlib as _hl
+
+        dsame = materialise(rich_model(), fresh(), R)
+        t_before = run_dh(dsame)
+        n_inplace = 0
+        for fp in sorted(p_ for p_ in dsame.rglob("*") if p_.is_file() and not p_.is_symlink() and p_.stat().st_size > 0)[: (6 if quick else 40)]:
+            st = fp.stat()
+            data = bytearray(fp.read_bytes())
+            data[len(data) // 2] ^= 0x01
+            with open(fp, "r+b") as fh:
+                fh.write(bytes(data))
+            os.utime(fp, ns=(st.st_atime_ns, st.st_mtime_ns))
+            t_after = run_dh(dsame)
+            rel = fp.relative_to(dsame).parts
+            node = t_after
+            for seg in rel:
+                node = node.get(seg) if isinstance(node, dict) else None
+            ok = t_after != t_before and node == "sha256:" + _hl.sha256(bytes(data)).hexdigest()
+            rec.check(ok, "c19:edit:in-place-same-size-same-mtime:stale-hash", f"{'/'.join(rel)}: one content byte changed in place (size and mtime preserved): tree {'unchanged' if t_after == t_before else 'changed'}, entry {node}", {"kind": "inplace", "file": "/".join(rel)}, [F_DH, "util/hashsums.py:file_hashsum"])
+            rec.case(("inplace", "/".join(rel)), nontrivial=True)
+            t_before = t_after
+            n_inplace += 1
+        bounds.append(f"in-place: {n_inplace} same-size same-mtime content edits of one directory re-hashed in the same process")
+
         # (3) outside links
         no = 0
         for variant in OUTSIDE_VARIANTS:
@@ -757,6 +783,23 @@ def replay(case: dict):
             tb = run_dh(materialise(case["b"], td / "b"))
             same = canon(case["a"]) == canon(case["b"])
             rec.check((ta == tb) == same, "c19:pairs", f"same content={same}, equal trees={ta == tb}")
+        elif k == "inplace":
+            import hashlib as _hl
+
+            dsame = materialise(rich_model(), td / "a")
+            t_before = run_dh(dsame)
+            fp = dsame.joinpath(*case["file"].split("/"))
+            st = fp.stat()
+            data = bytearray(fp.read_bytes())
+            data[len(data) // 2] ^= 0x01
+            with open(fp, "r+b") as fh:
+                fh.write(bytes(data))
+            os.utime(fp, ns=(st.st_atime_ns, st.st_mtime_ns))
+            t_after = run_dh(dsame)
+            node = t_after
+            for seg in case["file"].split("/"):
+                node = node.get(seg) if isinstance(node, dict) else None
+            rec.check(t_after != t_before and node == "sha256:" + _hl.sha256(bytes(data)).hexdigest(), "c19:edit:in-place-same-size-same-mtime:stale-hash", f"entry {node} after an in-place edit with preserved size and mtime")
         elif k == "outside":
             check_outside(rec, case["variant"], td)
         elif k == "absin":
